@@ -90,8 +90,9 @@ def write_order(ctx):
                 any(F.always_before(c, w) for c in cb), w.call,
                 'a build file can be written although the build script did '
                 'not finish')
-        sv = [e for e in F.calls_to(f, 'save', depth=0)
-              if not has_call(e.recv(), 'FindCacheFile')]
+        sv = [e for e in F.calls_to(f, 'save', depth=1)
+              if e.fn.module is f.module and
+              not has_call(e.recv(), 'FindCacheFile')]
         ok = bool(sv) and bool(cb) and all(
             any(F.always_before(s_, c) for s_ in sv) for c in cb)
         ctx.ob(R, fn + '|env-saved-before-script', ok, f.node,
